@@ -1,6 +1,6 @@
 (* C08 — Media actions need the matching permission or call membership. *)
 From Coq Require Import List NArith Bool.
-From Verif Require Import model.Hub proofs.Hub_easy.
+From Verif Require Import model.Hub proofs.Hub_easy proofs.Hub_wf proofs.Hub_own.
 Import ListNotations.
 Open Scope N_scope.
 
@@ -23,11 +23,118 @@ Theorem C08_transient_gate : forall h c sid s k kindn key val,
   conn_session h c sid s -> s.(s_room) = Some k -> allowed_transient s = false ->
   step h (OTransient c kindn key val) = (h, [ToConn c (SError E_not_allowed)]).
 Proof. exact transient_gate. Qed.
-(* C08_publish_needs_permission / C08_revocation_closes (partial): "a publisher is created only with
-   the permission" and "after a permissions update no open publisher lacks its permission" are checked
-   on every implementation trace by P_C08 (step_C08) and by the step-by-step comparison with the model's
-   offer_allowed / revoke; the history theorems are not proved yet. *)
+(* ---- for every history (any limits, gated or not, any ops, step-by-step or quiescent runs) ---- *)
+
+(* A session keeps a publisher only while its current permissions allow it: in every reachable
+   state, every publisher of a live non-virtual session passes the model's own offer check against
+   the permissions the session has now (as last set by the room reply or a permissions event) and
+   the media bits recorded for the publisher. *)
+Theorem C08_publishers_allowed_by_current_permissions : forall limits gated ops h,
+  h = run (init limits gated) ops \/ h = qrun (init limits gated) ops ->
+  forall sid s stream tok,
+  get_sess h sid = Some s -> is_virtual s.(s_kind) = false -> In (stream, tok) s.(s_pubs) ->
+  offer_allowed s.(s_perms) stream (match aget s.(s_pubmedia) tok with Some m => m | None => 0 end) = true.
+Proof. intros limits gated ops h R. exact (hold_reachable h (reachable_intro limits gated ops h R)). Qed.
+
+(* Readable forms: a screen publisher needs publish-screen; a publisher carrying audio (video)
+   needs publish-media or publish-audio (publish-video). *)
+Theorem C08_screen_publisher_needs_permission : forall limits gated ops h,
+  h = run (init limits gated) ops \/ h = qrun (init limits gated) ops ->
+  forall sid s tok,
+  get_sess h sid = Some s -> is_virtual s.(s_kind) = false -> In (2, tok) s.(s_pubs) ->
+  has_perm s.(s_perms) P_SCREEN = true.
+Proof. intros limits gated ops h R. exact (screen_publisher_needs_permission h (reachable_intro limits gated ops h R)). Qed.
+Theorem C08_audio_publisher_needs_permission : forall limits gated ops h,
+  h = run (init limits gated) ops \/ h = qrun (init limits gated) ops ->
+  forall sid s stream tok,
+  get_sess h sid = Some s -> is_virtual s.(s_kind) = false -> In (stream, tok) s.(s_pubs) -> stream <> 2 ->
+  N.testbit (match aget s.(s_pubmedia) tok with Some m => m | None => 0 end) 0 = true ->
+  has_perm s.(s_perms) P_MEDIA = true \/ has_perm s.(s_perms) P_AUDIO = true.
+Proof. intros limits gated ops h R. exact (audio_publisher_needs_permission h (reachable_intro limits gated ops h R)). Qed.
+Theorem C08_video_publisher_needs_permission : forall limits gated ops h,
+  h = run (init limits gated) ops \/ h = qrun (init limits gated) ops ->
+  forall sid s stream tok,
+  get_sess h sid = Some s -> is_virtual s.(s_kind) = false -> In (stream, tok) s.(s_pubs) -> stream <> 2 ->
+  N.testbit (match aget s.(s_pubmedia) tok with Some m => m | None => 0 end) 1 = true ->
+  has_perm s.(s_perms) P_MEDIA = true \/ has_perm s.(s_perms) P_VIDEO = true.
+Proof. intros limits gated ops h R. exact (video_publisher_needs_permission h (reachable_intro limits gated ops h R)). Qed.
+(* A session whose backend granted none of publish-audio / -video / -screen / -media has no screen
+   publisher and no publisher carrying audio or video. *)
+Theorem C08_no_publish_permission_no_media : forall limits gated ops h,
+  h = run (init limits gated) ops \/ h = qrun (init limits gated) ops ->
+  forall sid s p stream tok,
+  get_sess h sid = Some s -> is_virtual s.(s_kind) = false -> s.(s_perms) = Some p ->
+  N.testbit p P_AUDIO = false -> N.testbit p P_VIDEO = false -> N.testbit p P_SCREEN = false -> N.testbit p P_MEDIA = false ->
+  In (stream, tok) s.(s_pubs) ->
+  stream <> 2 /\
+  N.testbit (match aget s.(s_pubmedia) tok with Some m => m | None => 0 end) 0 = false /\
+  N.testbit (match aget s.(s_pubmedia) tok with Some m => m | None => 0 end) 1 = false.
+Proof. intros limits gated ops h R. exact (no_publish_permission_no_media h (reachable_intro limits gated ops h R)). Qed.
+
+(* A publisher is created only with the permission: an offer the permissions do not allow is
+   refused and nothing is created (a creation that was allowed when it started is checked again
+   when it completes: finish_create, and C09_completion_owned_or_closed). *)
+Theorem C08_offer_needs_permission : forall h c sid s i stream media,
+  offer_allowed s.(s_perms) stream media = false ->
+  do_media h c sid s (RSession i) 0 stream media = (h, [ToConn c (SError E_not_allowed)]).
+Proof. exact offer_needs_permission. Qed.
+
+(* The revocation (run after a permissions event and after a room reply that sets permissions) closes
+   every publisher the permissions no longer allow, in any state ... *)
+Theorem C08_revocation_closes : forall h sid s stream tok,
+  get_sess h sid = Some s -> In (stream, tok) s.(s_pubs) ->
+  offer_allowed s.(s_perms) stream (match aget s.(s_pubmedia) tok with Some m => m | None => 0 end) = false ->
+  ~ In tok (h_mcuopen (fst (revoke h sid))).
+Proof. exact revoke_closes. Qed.
+(* ... and leaves the session with allowed publishers only, whatever it held before. *)
+Theorem C08_revocation_establishes : forall h sid s' stream tok,
+  get_sess (fst (revoke h sid)) sid = Some s' -> In (stream, tok) s'.(s_pubs) ->
+  offer_allowed s'.(s_perms) stream (match aget s'.(s_pubmedia) tok with Some m => m | None => 0 end) = true.
+Proof. intros h sid s' stream tok Hs. exact (revoke_establishes h sid s' Hs stream tok). Qed.
+
+(* A request for another session's stream is refused unless both are in the same room and in its
+   call (same_call); nothing is created. *)
+Theorem C08_request_needs_same_call : forall h c sid s n stream media,
+  n <> sid -> same_call h sid s n = false ->
+  do_media h c sid s (RSession (IdPub n)) 1 stream media = (h, [ToConn c (SError E_not_allowed)]).
+Proof. exact request_needs_same_call. Qed.
+
+Theorem C08_request_needs_same_call_any : forall h c sid s i stream media,
+  (match i with IdPub x => N.eqb x sid | _ => false end) = false ->
+  same_call h sid s (match i with IdPub x => x | _ => 0 end) = false ->
+  do_media h c sid s (RSession i) 1 stream media = (h, [ToConn c (SError E_not_allowed)]).
+Proof. exact request_needs_same_call_any. Qed.
+
+(* The statements are not vacuous: a reachable state with an open audio + video publisher (media
+   server answering at once, and gated); the room reply granting publish-audio only closes it. *)
+Example C08_example_open_publisher :
+  ex_view (run (init [0] false) ex_ops) = ([1], [], [(1, [(0, 1)], [], [(1, 3)], None)]) /\
+  ex_view (run (init [0] true) (ex_ops ++ [OMcuDone 1 true])) = ([1], [], [(1, [(0, 1)], [], [(1, 3)], None)]).
+Proof. split; [exact ex_open_publisher_ungated|exact ex_open_publisher_gated]. Qed.
+Example C08_example_revoked_on_join :
+  ex_view (run (init [0] false) (ex_ops ++ [OJoin 1 7 0 (RepOk (Some 1) 0)])) = ([], [], [(1, [], [], [(1, 3)], Some 1)]) /\
+  In (ToMcu (MClose 1)) (snd (step (run (init [0] false) ex_ops) (OJoin 1 7 0 (RepOk (Some 1) 0)))).
+Proof. exact ex_revoked_on_join. Qed.
+(* "no publish permission, no publisher at all" is false: an offer without audio and video needs no
+   permission (model and clientsession.go alike); C08_no_publish_permission_no_media is what holds. *)
+Example C08_no_permission_no_publisher_refuted :
+  (let h := run (init [0] false) ex_ops_nomedia in
+   match get_sess h 1 with
+   | Some s => match s_perms s, s_pubs s with Some 0, _ :: _ => false | _, _ => true end
+   | None => true
+   end) = false.
+Proof. exact no_permission_no_publisher_refuted. Qed.
 
 Print Assumptions C08_offer_allowed_iff.
 Print Assumptions C08_control_gate.
 Print Assumptions C08_transient_gate.
+Print Assumptions C08_publishers_allowed_by_current_permissions.
+Print Assumptions C08_screen_publisher_needs_permission.
+Print Assumptions C08_audio_publisher_needs_permission.
+Print Assumptions C08_video_publisher_needs_permission.
+Print Assumptions C08_no_publish_permission_no_media.
+Print Assumptions C08_revocation_closes.
+Print Assumptions C08_revocation_establishes.
+Print Assumptions C08_request_needs_same_call.
+Print Assumptions C08_offer_needs_permission.
+Print Assumptions C08_request_needs_same_call_any.
